@@ -306,7 +306,7 @@ def generate(run_seed, tier):
                         f["drop"][1] = 112 - f["drop"][0]
     # clock fault: the wall clock steps forward (or the process is descheduled)
     # between two of the reader's clock reads
-    jumps = [[rw.randint(1, 12), rw.choice([300000, 2000000, 3600000000])] for _ in range(rw.choice([0, 0, 0, 1, 2]))]
+    jumps = [[rw.randint(1, 12), rw.choice([300000, 2000000, 3600000000, -500000, -2000000])] for _ in range(rw.choice([0, 0, 0, 1, 2]))]   # time.time() is not monotonic: NTP steps go both ways
     return {"rig": NAME, "prop": PROP, "noise": noise, "windows": windows, "clock_jumps": jumps}
 
 
